@@ -99,6 +99,23 @@ def gen_cases(rng, tier):
                {"q": "ord", "api": "all", "ft": None, "strand": None, "keys": [], "form": "none", "reverse": False},
                {"q": "ord", "api": "all", "ft": None, "strand": rng.choice(["+", "-", "?"]), "keys": ["start"], "form": "str", "reverse": False}]
         cases.append({"feats": feats, "qs": gen_queries(rng, feats), "delete": dele, "qs2": qs2 if dele else []})
+    # larger tables with many equally frequent types: the query planner then prefers the featuretype index for a
+    # two-type filter, so that "the order rows happen to come in" is no longer the input order
+    big_types = ["gene", "mRNA", "exon", "CDS", "five_prime_UTR", "three_prime_UTR", "tRNA", "ncRNA"]
+    for j in range(12 if tier == "quick" else 150):
+        k = rng.choice([6, 7, 8])
+        feats = []
+        for i in range(rng.choice([24, 30, 40])):
+            s0 = rng.randrange(1, 5000)
+            feats.append(imp.mkfeat(seqid=rng.choice(SEQIDS[:2]), source="src", type_=big_types[(i * 5 + j) % k], s=s0, e=s0 + rng.randrange(0, 300),
+                                    strand=rng.choice("+-"), attrs=[["ID", ["f%d" % i]]]))
+        qs = []
+        for _ in range(8):
+            two = sorted(rng.sample(big_types[:k], 2), reverse=rng.random() < 0.5)
+            for form, keys in (("str", ["file_order"]), ("tuple", ["file_order"]), ("none", []), ("str", ["start"])):
+                qs.append({"q": "ord", "api": rng.choice(["all", "fot"]), "ft": two if rng.random() < 0.8 else two[0], "strand": rng.choice([None, None, "+"]),
+                           "keys": keys, "form": form, "reverse": False})
+        cases.append({"feats": feats, "qs": qs, "delete": [], "qs2": []})
     return cases
 
 
